@@ -301,3 +301,14 @@ def declared_vars(body):
 
     walk(body, f)
     return out
+
+
+def flat_stmts(body):
+    """statement list with plain nested blocks dissolved (recursively): the sequence of non-block statements"""
+    out = []
+    for s in body:
+        if s["k"] == "block":
+            out.extend(flat_stmts(s["b"]))
+        else:
+            out.append(s)
+    return out
